@@ -1,7 +1,7 @@
 """C15 -- package type names map one-to-one, case-insensitively."""
 from .std import *
 from . import ref as R_
-from mirsym.models import ModelSerializer, ModelDeserializer, Formatter
+from mirsym.models import ModelSerializer, ModelDeserializer, Formatter, b_not, b_or
 
 ID = 'C15'
 PROGS = ['default', 'serde']
@@ -113,6 +113,41 @@ def h_de_converse(L, parts):
     return 'parsed'
 
 
+def h_purl_converse(L, tparts):
+    """the type string used in a PURL: if the typed parser takes `pkg:<T>/n` for a package type, <T> is that type's name up to ASCII case"""
+    I = L.I
+    t, holes = template_bytes(L, tparts)
+    for hb in holes.values():
+        for x in hb:
+            L.assume(b_not(b_or(x == 0x2F, x == 0x3F, x == 0x23)))     # keep <T> the whole type segment as written
+    s = list(b'pkg:') + t + list(b'/ns/n')
+    L.assume_utf8(s)
+    req = {'op': 'parse', 'T': 'Purl', 's': SymStr(s)}
+    L.expect_native(req, {})
+    try:
+        r = from_str(I, 'Purl', s)
+    except Panic as e:
+        L.fail('panic: %s' % e.msg)
+        return 'panic'
+    if r.variant == 'Err':
+        L.expect_native(req, {'err': err_name(r.fields[0])})
+        low = R_.lower(L, t)
+        for nm in NAMES.values():
+            if R_.eq(L, low, list(nm.encode())):
+                L.fail('a letter-case variant of %s is refused as the type of a PURL' % nm)
+        return 'refused'
+    p = r.fields[0]
+    v = p.fields[0].variant
+    want = list(NAMES[v].encode())
+    L.expect_native(req, {'ok': {'type': SymStr(want)}})
+    low = R_.lower(L, t)
+    if len(low) != len(want):
+        L.fail('a type string of another length is taken for %s by the typed parser' % NAMES[v])
+        return 'parsed'
+    L.check('ASCII-lower-cased type string of the PURL == name of the package type', bytes_eq_term(low, want))
+    return 'parsed'
+
+
 def queries(tier):
     deep = 1 if tier == 'thorough' else 0      # the former thorough bounds are the quick bounds now
     th = True
@@ -129,6 +164,13 @@ def queries(tier):
         for i in range(len(nm)):
             for n in ((1, 2, 3) if th else (2, 3)):
                 qs.append(Query('converse %s with char %d replaced by ⟦%d⟧' % (nm, i, n), h_converse, {'parts': [nm[:i], ('hole', 'h', n), nm[i + 1:]]}, bound='%s with letter %d replaced by any %d-byte string' % (nm, i, n)))
+    # the type string used in a PURL, through the typed parser (escapes included: a 3-byte hole in place of every letter)
+    for n in lens(5 + deep, 1):
+        qs.append(Query('purl type ⟦%d⟧' % n, h_purl_converse, {'tparts': [('hole', 'h', n)]}, bound='pkg:<T>/ns/n through Purl::from_str, <T> = every string of %d bytes without / ? #' % n))
+    for nm in NAMES.values():
+        for i in range(len(nm)):
+            qs.append(Query('purl type %s with char %d replaced by ⟦3⟧' % (nm, i), h_purl_converse, {'tparts': [nm[:i], ('hole', 'h', 3), nm[i + 1:]]},
+                            bound='pkg:<T>/ns/n through Purl::from_str, <T> = %s with letter %d replaced by any 3-byte string' % (nm, i)))
     # the serde form read back (serde feature): derived Deserialize, driven through its identifier visitor
     for v in NAMES:
         qs.append(Query('serde deserialize agree %s' % v, h_de_agree, {'variant': v}, bound='the string value %s' % NAMES[v], prog='serde'))
@@ -150,6 +192,15 @@ def confirm(v, resp):
     if 'panic' in resp:
         return 'panicked: %s' % resp['panic']
     s = bytes.fromhex(v['case']['s'])
+    if v['case']['op'] == 'parse':
+        t = s[4:-5]
+        asc = bytes(c + 32 if 65 <= c <= 90 else c for c in t)
+        if 'ok' in resp:
+            name = hx(resp['ok']['type'])
+            return None if asc == name else 'the type string %r of a PURL is taken for the package type %r' % (t.decode('utf8', 'replace'), name.decode())
+        if asc.decode('utf8', 'replace') in NAMES.values():
+            return 'the case variant %r of a known name is refused as the type of a PURL (%s)' % (t, resp.get('err'))
+        return None
     if v['case']['op'] == 'ptype_de':
         asc = bytes(c + 32 if 65 <= c <= 90 else c for c in s)
         if 'ok' in resp:
